@@ -494,3 +494,106 @@ func enclosingIfs(root ast.Node, n ast.Node) []*ast.IfStmt {
 	})
 	return out
 }
+
+// c17NestedModuleDecidedFirst: AllModuleFiles must leave out every file of a
+// nested module (a directory holding its own cue.mod). fs.ReadDir returns the
+// entries sorted by name, so whether a directory is a nested module is known
+// only after *all* entries were seen: the scan that returns on "cue.mod" must
+// be a loop of its own that completes before the first file of the directory
+// is yielded. Folded into the yielding loop, files whose names sort before
+// "cue.mod" are yielded first — tidy then requires modules only a nested
+// module imports, and which ones depends on file names.
+func c17NestedModuleDecidedFirst(c *Ctx) {
+	const rule = "imports.nested-module-decided-before-files"
+	f := c.fn("internal/mod/modimports", "yieldAllModFiles")
+	info := f.Info()
+	isYield := func(n ast.Node) bool {
+		found := false
+		ast.Inspect(n, func(x ast.Node) bool {
+			if call, ok := x.(*ast.CallExpr); ok {
+				nm := calleeName(info, call)
+				if strings.HasSuffix(nm, "modimports.yieldPackageFile") {
+					found = true
+				}
+			}
+			return true
+		})
+		return found
+	}
+	hasSkip := func(n ast.Node) bool {
+		found := false
+		ast.Inspect(n, func(x ast.Node) bool {
+			is, ok := x.(*ast.IfStmt)
+			if !ok {
+				return true
+			}
+			cond := exprString(is.Cond)
+			if !strings.Contains(cond, `"cue.mod"`) || !strings.Contains(cond, "==") {
+				return true
+			}
+			for _, st := range is.Body.List {
+				if _, isRet := st.(*ast.ReturnStmt); isRet {
+					found = true
+				}
+			}
+			return true
+		})
+		return found
+	}
+	var scan, firstYield *ast.RangeStmt
+	ast.Inspect(f.Body, func(x ast.Node) bool {
+		rs, ok := x.(*ast.RangeStmt)
+		if !ok {
+			return true
+		}
+		if hasSkip(rs.Body) && scan == nil {
+			scan = rs
+		}
+		if isYield(rs.Body) && firstYield == nil {
+			firstYield = rs
+		}
+		return true
+	})
+	if firstYield == nil {
+		c.broken("anchor: yieldAllModFiles no longer yields package files from a loop over the directory entries")
+	}
+	ok := scan != nil && scan != firstYield && scan.End() < firstYield.Pos() && !isYield(scan.Body)
+	pos := firstYield.Pos()
+	c.check(rule, f.Name, pos, ok,
+		"whether the directory is a nested module (has a cue.mod entry) must be decided by a scan of all entries that completes before the first file is yielded; entries are sorted by name, so a test folded into the yielding loop lets files sorting before \"cue.mod\" through")
+}
+
+// c17ResolutionIgnoresCacheState: which module provides a package must be a
+// function of the requirements, not of whether their module graph happens to
+// have been loaded already (by an earlier iteration or a concurrently loading
+// package). GraphIsLoaded is a cache-state query; only the two functions that
+// use it to avoid loading work they can skip may call it.
+func c17ResolutionIgnoresCacheState(c *Ctx) {
+	const rule = "resolve.no-branch-on-graph-cache-state"
+	allowed := map[string]string{
+		"internal/mod/modrequirements.(*Requirements).WithDefaultMajorVersions": "carries an already loaded graph over to the derived Requirements (same roots)",
+		"internal/mod/modload.(*loader).updateRoots":                             "chooses between reading the loaded graph and spot-checking the roots; both compute the same selected versions",
+	}
+	n := 0
+	for _, pr := range []string{"internal/mod/modload", "internal/mod/modpkgload", "internal/mod/modrequirements", "internal/mod/modimports"} {
+		for _, f := range c.funcs(c.pkg(pr)) {
+			info := f.Info()
+			ast.Inspect(f.Body, func(x ast.Node) bool {
+				call, ok := x.(*ast.CallExpr)
+				if !ok || !strings.HasSuffix(calleeName(info, call), "modrequirements.(*Requirements).GraphIsLoaded") {
+					return true
+				}
+				n++
+				root := f.Name
+				if i := strings.Index(root, "$"); i >= 0 {
+					root = root[:i]
+				}
+				_, ok2 := allowed[root]
+				c.check(rule, f.Name, call.Pos(), ok2,
+					"GraphIsLoaded reports cache state (has some caller already loaded the module graph?); a package or version resolution that branches on it gives different answers for the same requirements depending on what ran before")
+				return true
+			})
+		}
+	}
+	c.expect(rule, 2)
+}
